@@ -16,9 +16,13 @@ import (
 	"math/big"
 	"math/rand/v2"
 	"os"
+	"os/exec"
+	"path/filepath"
+	"runtime/debug"
 	"sort"
 	"strings"
 	"sync"
+	"syscall"
 	"testing"
 	"time"
 
@@ -859,6 +863,9 @@ func TestC17(t *testing.T) {
 	}
 	r := vcore.Start(t, "C17")
 	tStart := time.Now()
+	// the test engine allocates big.Int heavily; with many concurrent cases the
+	// collector dominates (measured: 30% of the CPU in the kernel at GOGC=100)
+	debug.SetGCPercent(800)
 	pl := &planner{r: r}
 	p := chains()[1].Inner().ScalarField()
 	pl.specialOK = hintTerminates(new(big.Int).Sub(p, big.NewInt(1))) && hintTerminates(new(big.Int).Sub(p, big.NewInt(2))) && hintTerminates(new(big.Int).Div(p, big.NewInt(3)))
@@ -925,7 +932,7 @@ func TestC17(t *testing.T) {
 	hangWG.Add(1)
 	go func() {
 		defer hangWG.Done()
-		hangProbe(r, pl.specialOK)
+		hangProbe(r)
 	}()
 
 	workers := 12
@@ -990,48 +997,102 @@ func weight(c *tcase) int {
 
 // ------------------------------------------------------------------ non-termination probe (child process)
 
-// hangProbe: BN254-in-BN254 Groth16 recursion on a genuine proof whose public
-// input is p-1 (native Verify accepts).  The in-circuit evaluation is run in a
-// child process under a watchdog sized from the same case with a benign input.
-func hangProbe(r *vcore.Run, specialOK bool) {
-	rn := chains()[1]
-	t0 := time.Now()
-	ok, msg := hangCase(rn, false)
-	benign := time.Since(t0)
-	if !ok {
-		r.Inconclusive("hang-probe-benign-case-failed:" + msg)
+// hangProbe: BN254-in-BN254 Groth16 recursion on a genuine proof whose last
+// public input is p-1 (native Verify accepts).  A killable child process first
+// evaluates the same outer circuit on a benign public input (timing reference,
+// same cold start, same machine load), then on the special one; the watchdog
+// for the second evaluation is 3x the first (at least 60 s, at most 6 min).
+// Verdict "does not terminate" needs the watchdog AND the SIGQUIT goroutine
+// dump showing the evaluation inside eisenstein.HalfGCD.
+func hangProbe(r *vcore.Run) {
+	dir := filepath.Join(vcore.Root(), "work", "C17-children")
+	_ = os.MkdirAll(dir, 0o755)
+	out := filepath.Join(dir, fmt.Sprintf("%s-seed%d-hangprobe.json", r.Tier, r.Seed))
+	logp := out + ".log"
+	_ = os.Remove(out)
+	lf, err := os.Create(logp)
+	if err != nil {
+		r.Inconclusive("hang-probe-child:cannot create log")
 		return
 	}
-	// the child repeats exactly the benign work (cold start included); a run that
-	// is merely slow is not mistaken for the hang because the verdict also needs
-	// the SIGQUIT dump to show the evaluation inside eisenstein.HalfGCD
-	wd := 4 * benign
-	if wd < 3*time.Minute {
-		wd = 3 * time.Minute
+	defer lf.Close()
+	cmd := exec.Command(os.Args[0], "-test.run=^TestC17Child$", "-test.v", "-test.timeout=0")
+	cmd.Env = append(os.Environ(), "VERIF_C17_CHILD=hangprobe", "VERIF_CHILD_OUT="+out, "VERIF_EVIDENCE_DIR="+dir)
+	cmd.Stdout = lf
+	cmd.Stderr = lf
+	if err := cmd.Start(); err != nil {
+		r.Inconclusive("hang-probe-child:cannot start")
+		return
 	}
-	if wd > 15*time.Minute {
-		wd = 15 * time.Minute
+	done := make(chan error, 1)
+	go func() { done <- cmd.Wait() }()
+	readLog := func() string {
+		b, _ := os.ReadFile(logp)
+		return string(b)
 	}
-	r.Set("hang_probe_benign_seconds", benign.Seconds())
-	r.Set("hang_probe_watchdog_seconds", wd.Seconds())
-	res := r.RunChild("TestC17Child", "hangprobe", []string{"VERIF_C17_CHILD=hangprobe"}, wd)
-	log := ""
-	if b, err := os.ReadFile(res.LogPath); err == nil {
-		log = string(b)
+	t0 := time.Now()
+	var benign time.Duration
+	var deadline time.Time
+	hardStop := t0.Add(25 * time.Minute)
+	timedOut, exited := false, false
+	for !exited && !timedOut {
+		select {
+		case <-done:
+			exited = true
+		case <-time.After(500 * time.Millisecond):
+			if benign == 0 && strings.Contains(readLog(), "C17CHILD benign-done") {
+				benign = time.Since(t0)
+				wd := 3 * benign
+				if wd < 60*time.Second {
+					wd = 60 * time.Second
+				}
+				if wd > 6*time.Minute {
+					wd = 6 * time.Minute
+				}
+				deadline = time.Now().Add(wd)
+				r.Set("hang_probe_benign_seconds", benign.Seconds())
+				r.Set("hang_probe_watchdog_seconds", wd.Seconds())
+			}
+			if (!deadline.IsZero() && time.Now().After(deadline)) || time.Now().After(hardStop) {
+				timedOut = true
+			}
+		}
 	}
+	if timedOut {
+		_ = cmd.Process.Signal(syscall.SIGQUIT)
+		select {
+		case <-done:
+		case <-time.After(20 * time.Second):
+			_ = cmd.Process.Kill()
+			<-done
+		}
+	}
+	log := readLog()
 	switch {
-	case res.OK:
-		r.Count("hang-probe.returned", 1)
-	case res.TimedOut && strings.Contains(log, "C17CHILD native=accept") && strings.Contains(log, "eisenstein.HalfGCD"):
+	case !timedOut && strings.Contains(log, "C17CHILD special-done sat=true"):
+		r.Count("hang-probe.special-input-returned-satisfied", 1)
+		r.Eval("hangprobe|emulated|groth16|pub=p-1", true)
+	case !timedOut && strings.Contains(log, "C17CHILD special-done sat=false"):
+		r.Count("hang-probe.special-input-returned-UNSATISFIED", 1)
+		r.Eval("hangprobe|emulated|groth16|pub=p-1", true)
+		r.Violation("incircuit-rejects-native-accepts/groth16/emulated/genuine/public-input-p-#",
+			"BN254-in-BN254 Groth16: genuine proof with last public input p-1 accepted natively, outer circuit unsatisfied", map[string]any{"child_log": logp, "log": excerpt(log, "C17CHILD special-done")})
+	case timedOut && benign > 0 && strings.Contains(log, "C17CHILD special-start native=accept") && strings.Contains(log, "eisenstein.HalfGCD"):
 		r.Count("hang-probe.watchdog-fired-inside-eisenstein.HalfGCD", 1)
 		r.Eval("hangprobe|emulated|groth16|pub=p-1", true)
 		r.Violation(hangSignature,
-			fmt.Sprintf("BN254-in-BN254 Groth16 in-circuit verification (test engine) of a genuine proof with public input p-1 did not return within %s (benign input: %.1fs); the native verifier accepts; goroutine dump shows sw_emulated halfGCDEisenstein -> gnark-crypto eisenstein.HalfGCD", wd, benign.Seconds()),
-			map[string]any{"chain": "emulated", "scheme": "groth16", "public_input": "p-1 (BN254 Fr)", "child_log": res.LogPath, "stack_excerpt": excerpt(log, "eisenstein.HalfGCD")})
+			fmt.Sprintf("BN254-in-BN254 Groth16 in-circuit verification (test engine) of a genuine proof whose last public input is p-1 did not return within %.0fs (same circuit, benign input, same process: %.0fs); the native verifier accepts; goroutine dump shows sw_emulated halfGCDEisenstein -> gnark-crypto eisenstein.HalfGCD", time.Since(t0).Seconds()-benign.Seconds(), benign.Seconds()),
+			map[string]any{"chain": "emulated", "scheme": "groth16", "public_input": "[f(x), 12345, p-1] (BN254 Fr)", "child_log": logp, "stack_excerpt": excerpt(log, "eisenstein.HalfGCD")})
 	default:
-		r.Inconclusive("hang-probe-child:" + firstLines(res.Output, 3))
+		r.Inconclusive("hang-probe-child:" + firstLines(tailStr(log, 600), 6))
 	}
-	_ = specialOK
+}
+
+func tailStr(s string, n int) string {
+	if len(s) > n {
+		return s[len(s)-n:]
+	}
+	return s
 }
 
 func excerpt(s, needle string) string {
@@ -1050,7 +1111,7 @@ func excerpt(s, needle string) string {
 }
 
 // hangCase proves the tiny inner circuit and evaluates the outer circuit; with
-// special the second public input is p-1.
+// special the last public input is p-1.
 func hangCase(rn runner, special bool) (bool, string) {
 	field := rn.Inner().ScalarField()
 	// three public inputs: the multi scalar multiplication pairs the first two and
@@ -1074,9 +1135,10 @@ func hangCase(rn runner, special bool) (bool, string) {
 	if nerr, pan := nativeG16(rn, proof, in.vk, pw); nerr != nil || pan != "" {
 		return false, fmt.Sprintf("native verifier: %v %s", nerr, pan)
 	}
-	fmt.Println("C17CHILD native=accept; starting in-circuit evaluation, special =", special)
+	if special {
+		fmt.Println("C17CHILD special-start native=accept")
+	}
 	o := rn.RunG16(&g16Case{mode: "witness", engine: "test", vks: []groth16.VerifyingKey{in.vk}, vkCcs: []constraint.ConstraintSystem{in.ccs}, proof: proof, pub: pw})
-	fmt.Println("C17CHILD in-circuit returned sat =", o.sat, o.err)
 	if !o.sat {
 		return false, "in-circuit: " + o.err
 	}
@@ -1087,17 +1149,15 @@ func TestC17Child(t *testing.T) {
 	if !vcore.IsChild() {
 		t.Skip("parent runs TestC17")
 	}
-	r := vcore.Start(t, "C17")
 	switch os.Getenv("VERIF_C17_CHILD") {
 	case "hangprobe":
-		ok, msg := hangCase(chains()[1], true)
-		r.Eval("hangprobe|emulated|groth16|pub=p-1", true)
-		if ok {
-			r.Count("hang-probe.special-input-satisfied", 1)
-		} else {
-			r.Count("hang-probe.special-input-NOT-satisfied", 1)
-			r.Violation("incircuit-rejects-native-accepts/groth16/emulated/genuine/public-input-p-#", "genuine proof with public input p-1: "+msg, map[string]any{"public_input": "p-1"})
+		ok, msg := hangCase(chains()[1], false)
+		if !ok {
+			fmt.Println("C17CHILD benign-failed", msg)
+			return
 		}
+		fmt.Println("C17CHILD benign-done")
+		ok, msg = hangCase(chains()[1], true)
+		fmt.Printf("C17CHILD special-done sat=%v %s\n", ok, msg)
 	}
-	r.ExportPartial()
 }
